@@ -1,6 +1,7 @@
 (* Entry points used by the extracted OCaml driver (and by generated cases.v
    files evaluated with vm_compute). *)
 From SV Require Export Checkers.AllocChk.
+From SV Require SaveLoad.SLOps.
 
 (* model transcript; ends with [9] at the first stuck state *)
 Fixpoint enc_run (fixed : bool) (w : world) (os : list op) : list (list Z) :=
@@ -64,3 +65,7 @@ Definition verdict (h : list Z) (t : list (list Z)) : list Z :=
   let complete := Nat.eqb (length tr) (length os) in
   let '(p, c) := saccept_z s_init tr 0%Z in
   [enc_bool complete; p; c; enc_bool (c01_direct tr); enc_bool (c02_direct tr)].
+
+(* the [saveload] domain (C14/C15): transcript of the extracted model *)
+Definition saveload_transcript (uuid : bool) (h : list Z) : list (list Z) :=
+  SaveLoad.SLOps.sl_transcript uuid h.
